@@ -1,5 +1,5 @@
 // engine job: the REAL jobs.Job (registry, liveness, assembly, snapshot store) driven by scripted fake
-// operator / source-runner nodes under a FrozenClock.
+// operator / source-runner nodes under a manual clock whose tickers honour Stop (stopClock).
 //
 //	mode c15  : membership / fault / checkpoint histories against the job state machine (fake nodes)
 //	mode slot : a REAL operator.Operator that survives a failed assembly with a half-aligned checkpoint
@@ -60,7 +60,7 @@ func (eng) Rule(mode string) string {
 	if mode == "slot" {
 		return "a real operator with 1..3 upstream source runners receives barriers of checkpoint a from a strict subset (possibly empty) of its runners, is deployed again (surviving worker), optionally receives stale barriers of a from a strict subset after the redeploy (known finding), then receives all barriers of checkpoint b; a retention update is sent before the first deploy; parking is observed at the operator.align.park hook, not by time-out; non-trivial: at least one barrier was registered before the second deploy"
 	}
-	return "histories over WorkerCount 1..3 with 0..2 standby nodes per kind: registrations in random order, heartbeats, graceful deregistration and kills (heartbeat expiry by advancing the frozen clock) of assembly members before / during deployment (Deploy gated) and during an in-flight checkpoint (some acks delivered) - periodic, a requested savepoint (HandleCreateSavepoint on an idle store) or a periodic checkpoint upgraded to a savepoint (request folding into it) -, failed deployments, checkpoint rounds with acks in random order, late acks of members of the lost assembly while the new assembly's Deploy is still gated (single and all of them), stale / foreign / duplicate acks. Non-trivial: at least one deployment completed and at least one fault or checkpoint happened; distinct by hash of the op list."
+	return "histories over WorkerCount 1..3 with 0..2 standby nodes per kind: registrations in random order, heartbeats, graceful deregistration and kills (heartbeat expiry by advancing the frozen clock) of assembly members before / during deployment (Deploy gated) and during an in-flight checkpoint (some acks delivered) - periodic, a requested savepoint (HandleCreateSavepoint on an idle store) or a periodic checkpoint upgraded to a savepoint (request folding into it) -, failed deployments, checkpoint rounds with acks in random order, late acks of members of the lost assembly while the new assembly's Deploy is still gated (single and all of them), stale / foreign / duplicate acks; ticks at any time through a clock whose tickers honour Stop (only a live checkpoint ticker of the job fires). Non-trivial: at least one deployment completed and at least one fault or checkpoint happened; distinct by hash of the op list."
 }
 
 // ---------------------------------------------------------------- ops (JSON, self-contained)
@@ -155,6 +155,53 @@ func (m *memLoc) snapshot(id uint64) *snapshotpb.JobCheckpoint {
 	return nil
 }
 
+// ---------------------------------------------------------------- a manual clock whose tickers honour Stop
+
+// stopClock is a FrozenClock (Now / Advance) whose Every returns tickers with the production semantics: a stopped
+// ticker never fires again. Tick(label) fires every ticker of the label that is alive - so "the interval elapses" acts
+// through the job's real ticker lifecycle (created in start, stopped on pause, created again by the next start).
+type hTicker struct {
+	label   string
+	fn      func(*clocks.EveryContext)
+	stopped bool
+}
+
+type stopClock struct {
+	*clocks.FrozenClock
+	mu      sync.Mutex
+	tickers []*hTicker
+}
+
+func (c *stopClock) Every(d time.Duration, fn func(*clocks.EveryContext), label string) *clocks.Ticker {
+	t := &hTicker{label: label, fn: fn}
+	c.mu.Lock()
+	c.tickers = append(c.tickers, t)
+	c.mu.Unlock()
+	return clocks.VerifNewTicker(func() {
+		c.mu.Lock()
+		t.stopped = true
+		c.mu.Unlock()
+	}, func() { fn(&clocks.EveryContext{}) })
+}
+
+// Tick fires the live tickers of the label (in creation order) and returns how many fired.
+func (c *stopClock) Tick(label string) int {
+	c.mu.Lock()
+	var live []*hTicker
+	for _, t := range c.tickers {
+		if t.label == label && !t.stopped {
+			live = append(live, t)
+		}
+	}
+	c.mu.Unlock()
+	for _, t := range live {
+		t.fn(&clocks.EveryContext{})
+	}
+	return len(live)
+}
+
+var _ clocks.Clock = (*stopClock)(nil)
+
 // ---------------------------------------------------------------- fake source + nodes
 
 type fakeSplitter struct {
@@ -241,7 +288,7 @@ type ckStart struct {
 type harness struct {
 	wc    int
 	job   *jobs.Job
-	clock *clocks.FrozenClock
+	clock *stopClock
 	loc   *memLoc
 
 	mu          sync.Mutex
@@ -416,6 +463,7 @@ type obs struct {
 	Res       uint64   `json:"res,omitempty"`
 	Published uint64   `json:"published,omitempty"`
 	Split     uint64   `json:"split,omitempty"`
+	Fired     int      `json:"fired,omitempty"` // tick: number of live checkpoint tickers that fired (not compared; diagnostics)
 }
 
 type step struct {
@@ -424,7 +472,7 @@ type step struct {
 }
 
 func newHarness(wc int, deadlineMs int) (*harness, error) {
-	h := &harness{wc: wc, clock: clocks.NewFrozenClock(), loc: newMemLoc(), arrived: make(chan struct{}, 4096),
+	h := &harness{wc: wc, clock: &stopClock{FrozenClock: clocks.NewFrozenClock()}, loc: newMemLoc(), arrived: make(chan struct{}, 4096),
 		gate: &gate{ch: make(chan struct{})}, known: map[string]bool{}}
 	cfg := &config.Config{WorkerCount: wc, KeyGroupCount: keyGroups, WorkingStorageLocation: "mem://w",
 		Sources: []connectors.SourceConfig{&fakeSource{h: h}}}
@@ -561,11 +609,11 @@ func (h *harness) fin(ok bool, who int) step {
 func (h *harness) tick() step {
 	o := obs{}
 	h.job.VerifSync()
-	if h.job.VerifStatus() == "Running" { // the real ticker exists only while running (FrozenClock's Stop is a no-op)
+	{ // the interval elapses: whatever checkpoint ticker of the job is alive fires (none while it is not Running)
 		h.mu.Lock()
 		h.ckStarts = nil
 		h.mu.Unlock()
-		h.clock.TickEvery("checkpointing")
+		o.Fired = h.clock.Tick("checkpointing")
 		h.mu.Lock()
 		cs := h.ckStarts
 		h.ckStarts = nil
@@ -862,6 +910,12 @@ func (e eng) Execute(mode string, c *hx.Case) (*hx.Result, error) {
 		}
 		if strings.HasPrefix(s.op, "OFin false") {
 			tags["deploy-failed"] = true
+		}
+		if s.op == "OTick" && s.o.Fired == 0 {
+			tags["tick-with-no-live-ticker"] = true
+		}
+		if s.op == "OTick" && s.o.Fired > 0 && finOK > 1 {
+			tags["tick-fired-recreated-ticker"] = true
 		}
 		if s.o.Cid != 0 {
 			cks++
